@@ -3,7 +3,7 @@ GO_CMD = "rx"
 GEN = ["Gen/GenPkg.v"]
 MODEL_VO = ["theories/Rx/Spec.vo"]
 EXTRACT = "extract/Rx.v"
-DEPS = ["Pkg", "Rx"]
+DEPS = ["Pkg", "Rx", "C01", "C15"]
 TRUSTED = ["Coq 8.16.1 kernel + vm_compute",
            "hand-written models coq/theories/Rx/{Model,Consumer,Transport}.v over the package decoders of coq/theories/Pkg (tied to the code by this correspondence and by C06/C07/C10's)",
            "token / data-type tables re-tabulated from the code (Gen/GenPkg.v)",
